@@ -24,6 +24,7 @@ package main
 
 import (
 	"context"
+	"database/sql"
 	"encoding/hex"
 	"fmt"
 	"os"
@@ -185,6 +186,8 @@ func exec(line string, st *hx.Stats) string {
 	f := strings.Fields(line)
 	ctx := context.Background()
 	switch f[0] {
+	case "locked":
+		return lockedCase(f[1])
 	case "sf":
 		return sfres.Exec(line)
 	case "hist", "cmd":
@@ -382,7 +385,75 @@ func genList(r *hx.Rand, valid bool) []*openfgav1.Assertion {
 	return out
 }
 
+// lockedCase: own database file with a short busy_timeout; v1 written; a second connection takes the write lock;
+// WriteAssertions(v2) is attempted; the lock is released; then ReadAssertions. Output "err" | "ok-visible" | "ok-lost".
+func lockedCase(tag string) string {
+	ctx := context.Background()
+	goose.SetLogger(goose.NopLogger())
+	goose.SetBaseFS(assets.EmbedMigrations)
+	dir, err := os.MkdirTemp("", "verif-c31-locked-*")
+	if err != nil {
+		return "setuperr tmp"
+	}
+	defer os.RemoveAll(dir)
+	uri := fmt.Sprintf("file:%s?_pragma=journal_mode(WAL)&_pragma=busy_timeout(20)&_pragma=synchronous(OFF)", filepath.Join(dir, "database.db"))
+	db, err := goose.OpenDBWithDriver("sqlite", uri)
+	if err != nil {
+		return "setuperr open"
+	}
+	if err := goose.Up(db, assets.SqliteMigrationDir); err != nil {
+		return "setuperr migrate"
+	}
+	_ = db.Close()
+	ds, err := sqlite.New(uri, sqlcommon.NewConfig())
+	if err != nil {
+		return "setuperr ds"
+	}
+	defer ds.Close()
+	store, model := ulid.Make().String(), ulid.Make().String()
+	v1 := []*openfgav1.Assertion{{TupleKey: &openfgav1.AssertionTupleKey{Object: "doc:1", Relation: "viewer", User: "user:v1-" + tag}, Expectation: false}}
+	v2 := []*openfgav1.Assertion{{TupleKey: &openfgav1.AssertionTupleKey{Object: "doc:1", Relation: "viewer", User: "user:v2-" + tag}, Expectation: true}}
+	if err := ds.WriteAssertions(ctx, store, model, v1); err != nil {
+		return "setuperr v1"
+	}
+	dsn, err := sqlite.PrepareDSN(uri)
+	if err != nil {
+		return "setuperr dsn"
+	}
+	other, err := sql.Open("sqlite", dsn)
+	if err != nil {
+		return "setuperr other"
+	}
+	defer other.Close()
+	tx, err := other.BeginTx(ctx, nil)
+	if err != nil {
+		return "setuperr begin"
+	}
+	if _, err := tx.ExecContext(ctx, "INSERT INTO assertion (store, authorization_model_id, assertions) VALUES (?, ?, ?)", "other-store", "other-model", []byte{}); err != nil {
+		_ = tx.Rollback()
+		return "setuperr lock"
+	}
+	werr := ds.WriteAssertions(ctx, store, model, v2)
+	_ = tx.Rollback()
+	got, err := ds.ReadAssertions(ctx, store, model)
+	if err != nil {
+		return "setuperr read"
+	}
+	if werr != nil {
+		return "err"
+	}
+	if len(got) == 1 && proto.Equal(got[0], v2[0]) {
+		return "ok-visible"
+	}
+	return "ok-lost"
+}
+
 func gen(r *hx.Rand, n int, tier string, emit func(string), st *hx.Stats) {
+	// a write attempted while another connection holds the sqlite write lock for its whole duration: it must fail,
+	// or — if it reports success — be visible (busyRetry: success only if the statement ran)
+	emit("locked 1")
+	emit("locked 2")
+	st.Add("locked", 2)
 	for i := 0; i < n; i++ {
 		c := r.Fork()
 		if c.Chance(1, 14) {
